@@ -63,21 +63,88 @@ func (c *Ctx) ListerRules(prop string) {
 	appr, _ := c.EnumConst(rule1, pkgRules, "APPROVED")
 	auth := c.authHelpers()
 	// the result list: appends whose result reaches the return
-	var appends []*ssa.Call
-	for _, b := range F.Blocks {
-		for _, ins := range b.Instrs {
-			call, ok := ins.(*ssa.Call)
-			if !ok || !isBuiltin(call, "append") {
-				continue
-			}
-			if sl, ok := call.Type().(*types.Slice); ok && namedIs(sl.Elem(), pkgWTypes, "Account") {
-				appends = append(appends, call)
+	accountAppends := func(fn *ssa.Function) []*ssa.Call {
+		var out []*ssa.Call
+		for _, b := range fn.Blocks {
+			for _, ins := range b.Instrs {
+				call, ok := ins.(*ssa.Call)
+				if !ok || !isBuiltin(call, "append") {
+					continue
+				}
+				if sl, ok := call.Type().(*types.Slice); ok && namedIs(sl.Elem(), pkgWTypes, "Account") {
+					out = append(out, call)
+				}
 			}
 		}
+		return out
 	}
+	appends := accountAppends(F)
 	if len(appends) != 1 {
 		c.R.Unknown(rule1, Fn(F), c.P.FuncPos(F), fmt.Sprintf("expected exactly one append to the account result list, found %d", len(appends)))
 		return
+	}
+	// S is the function that scans a wallet's accounts: ListAccounts itself, or a per-path helper whose whole result list
+	// ListAccounts appends (`accounts = append(accounts, scan(path)...)`, the list possibly a field of the helper's result)
+	entry := F
+	var link *ssa.Call // the call of the per-path helper in ListAccounts
+	if len(varargValuesT(appends[0].Call.Args[1])) == 0 {
+		spread := appends[0]
+		src := spread.Call.Args[1]
+		field := ""
+		if u, ok := src.(*ssa.UnOp); ok {
+			if fa, ok := u.X.(*ssa.FieldAddr); ok {
+				field = fieldNameOf(fa)
+				src = fa.X
+			}
+		}
+		if ex, ok := src.(*ssa.Extract); ok && ex.Index == 0 {
+			src = ex.Tuple
+		}
+		k, ok := src.(*ssa.Call)
+		if !ok || k.Call.IsInvoke() || k.Call.StaticCallee() == nil || !prog.InModule(k.Call.StaticCallee()) || k.Call.StaticCallee().Blocks == nil {
+			c.R.Unknown(rule1, Fn(F), c.Pos(spread), "the list appended to the result is not the result of a per-path helper of the lister: "+an.Term(spread.Call.Args[1]))
+			return
+		}
+		S := k.Call.StaticCallee()
+		sub := accountAppends(S)
+		if len(sub) != 1 || len(varargValuesT(sub[0].Call.Args[1])) != 1 {
+			c.R.Unknown(rule1, Fn(S), c.P.FuncPos(S), fmt.Sprintf("expected exactly one single-account append in the per-path helper, found %d", len(sub)))
+			return
+		}
+		// the helper's result is the list it appends to
+		if why := listResultOf(S, sub[0], field); why != "" {
+			c.R.Fail(rule1, Fn(S)+":result", c.P.FuncPos(S), why, "the per-path helper returns exactly the accounts it appended", nil)
+			return
+		}
+		link = k
+		appends = sub
+		F = S
+		_ = spread
+		// every path from the helper's call back to the path loop appends the helper's list (a nil result = path skipped)
+		defer func(F *ssa.Function, k, spread *ssa.Call) {
+			var hdr *ssa.BasicBlock
+			for _, l := range FindLoops(F) {
+				if l.FullRange && l.Body[k.Block()] {
+					hdr = l.Header
+				}
+			}
+			if hdr == nil {
+				return // reported by the paths clause
+			}
+			x, path := an.Cut(an.CutQuery{From: an.After(k), Target: func(i ssa.Instruction) bool { return i == hdr.Instrs[0] },
+				AcceptInstr: func(i ssa.Instruction) bool { return i == ssa.Instruction(spread) },
+				AcceptEdge: func(b *ssa.BasicBlock, i int, a *an.Atom) bool {
+					if a == nil || a.Op != "==" {
+						return false
+					}
+					return (a.LV == ssa.Value(k) && isNilConst(a.RV)) || (a.RV == ssa.Value(k) && isNilConst(a.LV))
+				}})
+			if x != nil {
+				c.R.Fail(rule2, Fn(F)+":collect", c.Pos(k), "the accounts found for a path can be left out of the result", "accounts = append(accounts, <accounts of the path>...) on every path", an.PathString(c.Pos, path))
+			} else {
+				c.R.OK(rule2, Fn(F)+":collect", c.Pos(k), "the per-path helper's whole list is appended to the result on every path (a nil result skips the path)")
+			}
+		}(entry, k, spread)
 	}
 	app := appends[0]
 	// the account appended: element of the slice literal argument
@@ -97,6 +164,14 @@ func (c *Ctx) ListerRules(prop string) {
 	if accLoop == nil {
 		c.R.Fail(rule1, Fn(F), c.Pos(app), "the account appended to the result is not the account of the current iteration over the wallet's accounts: "+an.Term(acct), "append(accounts, walletAccount) inside for _, walletAccount := range walletAccounts", nil)
 		return
+	}
+	if link != nil {
+		// after the scan the per-path helper hands its list back: no nil return once the account loop has finished
+		for _, ret := range an.Returns(F) {
+			if isNilConst(an.Result(ret, 0)) && an.Reachable(an.Point{Block: accLoop.Done, Idx: 0}, ret) {
+				c.R.Fail(rule2, Fn(F)+":result", c.Pos(ret), "the per-path helper can discard the accounts it found (nil result after the scan)", "the scanned list is returned", nil)
+			}
+		}
 	}
 	// source of the iteration: FetchAccounts(wallet.Name()) of the wallet fetched for the path
 	okSrc := false
@@ -264,8 +339,15 @@ func (c *Ctx) ListerRules(prop string) {
 	}
 	// the outer loop over requested paths is a full-range loop and the account loop's exit returns to it
 	var pathLoop *Loop
+	inPathLoop := accLoop.Header
+	if link != nil {
+		// the account scan lives in the per-path helper: its returns after the scan hand back the list (checked above);
+		// the loop over the requested paths is the one around the helper's call
+		inPathLoop = link.Block()
+		F = entry
+	}
 	for _, l := range FindLoops(F) {
-		if l.FullRange && l.Body[accLoop.Header] {
+		if l.FullRange && l.Body[inPathLoop] {
 			if p, ok := l.BoundLen.(*ssa.Parameter); ok && p.Parent() == F {
 				pathLoop = l
 			}
@@ -523,6 +605,72 @@ func elementUsesParam(v ssa.Value, p *ssa.Parameter, d int, seen map[ssa.Value]b
 		foreign = foreign || b
 	}
 	return
+}
+
+// listResultOf: the per-path helper S returns exactly the list it appends to. field == "": every non-nil return value has
+// the append as its root; otherwise the append reads and writes field `field` of one object allocated in S, nothing else
+// stores to that field, and every non-nil return is that object. Returns "" or the reason.
+func listResultOf(S *ssa.Function, app *ssa.Call, field string) string {
+	if field == "" {
+		for _, r := range an.Returns(S) {
+			v := an.Result(r, 0)
+			if isNilConst(v) {
+				continue
+			}
+			if root := sliceRootOfAppend(v); root != ssa.Value(app) {
+				if ms, ok := root.(*ssa.MakeSlice); ok && an.IsConstInt(ms.Len, 0) {
+					continue
+				}
+				return "the per-path helper can return a list other than the one it appended to: " + an.Term(v)
+			}
+		}
+		return ""
+	}
+	u, ok := app.Call.Args[0].(*ssa.UnOp)
+	if !ok {
+		return "the per-path helper does not append to its result's list field"
+	}
+	fa, ok := u.X.(*ssa.FieldAddr)
+	if !ok || fieldNameOf(fa) != field {
+		return "the per-path helper does not append to its result's list field"
+	}
+	obj, ok := fa.X.(*ssa.Alloc)
+	if !ok {
+		return "the object whose list the per-path helper fills is not allocated by it"
+	}
+	stored := false
+	for _, r := range *obj.Referrers() {
+		fa2, ok := r.(*ssa.FieldAddr)
+		if !ok || fieldNameOf(fa2) != field {
+			continue
+		}
+		for _, r2 := range *fa2.Referrers() {
+			if st, ok := r2.(*ssa.Store); ok && st.Addr == ssa.Value(fa2) {
+				if st.Val == ssa.Value(app) {
+					stored = true
+					continue
+				}
+				if ms, ok := st.Val.(*ssa.MakeSlice); ok && an.IsConstInt(ms.Len, 0) {
+					continue
+				}
+				if isNilConst(st.Val) {
+					continue
+				}
+				return "the list field of the per-path helper's result is also written from elsewhere: " + an.Term(st.Val)
+			}
+		}
+	}
+	if !stored {
+		return "the appended list is not stored back into the per-path helper's result"
+	}
+	for _, r := range an.Returns(S) {
+		v := an.Result(r, 0)
+		if isNilConst(v) || v == ssa.Value(obj) {
+			continue
+		}
+		return "the per-path helper can return an object other than the one it filled: " + an.Term(v)
+	}
+	return ""
 }
 
 func sliceRootOfAppend(v ssa.Value) ssa.Value {
